@@ -225,6 +225,20 @@ Example c10_ordered_instance :
 Proof.
   apply (rt_nrt_agree_ordered_partial kgen 3 cross_prog 5); [exact c10_cross_in_class|discriminate|discriminate| | |]; vm_compute; reflexivity.
 Qed.
+(* the beats setter inside the routine's own wake-up: in the class; the ordered real-time execution (start 2, offset 9)
+   agrees with the non-real-time run, where routine 1 resumes at 0, 1/16, 1/8, then at beat 1/2 + 1/4 = 3/4 of the rewound
+   clock = 5/16 s, then 7/16 *)
+Example c10_setbeats_instance :
+  prog_ok2 setb_prog /\
+  obs_rt kgen 9 setb_prog 2 setb_sched = obs_nrt kgen setb_prog 9 /\
+  filter (fun x => Nat.eqb (fst (fst x)) 1) (ob_resumes (obs_nrt kgen setb_prog 9)) =
+    [rs 1 0 0; rs 1 1 (1#16); rs 1 2 (1#8); rs 1 3 (5#16); rs 1 4 (7#16)].
+Proof.
+  assert (Hok : prog_ok2 setb_prog) by (split; repeat constructor; simpl; try lra; try discriminate).
+  split; [exact Hok|]. split.
+  - apply (rt_nrt_agree_ordered_partial kgen 9 setb_prog 2); [exact Hok|discriminate|discriminate| | |]; vm_compute; reflexivity.
+  - vm_compute. reflexivity.
+Qed.
 Example c10_own_syntactic_instance :
   draws_by 2 (x_vals (xnrt_loop kgen true sys_prog 10 (xnrt_init sys_prog))) = stream kgen 9 [4; 5]%Z.
 Proof.
